@@ -653,6 +653,8 @@ class Interp:
                 if isinstance(cv, FuncV) and "classmethod" in cv.info.deco:
                     return FuncV(cv.info, obj)
                 return cv
+            if name == "_make" and any(b.split(".")[-1] == "NamedTuple" for b in obj.info.bases):
+                return Op("bound", obj, Const("_make"))         # Cls._make taken as a value (map(Cls._make, rows))
             return Undef(name)
         if isinstance(obj, Op) and obj.op == "flagval" and name == "value":
             return obj.args[1]
